@@ -740,7 +740,9 @@ package scipipe
 //@   replay input cmd = placeholderText(portInfo.portType, portName, placeHolder.modifiers)
 //@   replay assume portName != "" && !contains(portName, "|") && !contains(portName, "{") && !contains(portName, "}") && len(placeHolder.modifiers) <= 2 && (len(placeHolder.modifiers) > 0 ==> docMod(placeHolder.modifiers[0])) && (len(placeHolder.modifiers) > 1 ==> docMod(placeHolder.modifiers[1]))
 //@   replaycheck expands-as-documented[C01,C09,C13,C15,C17,C18]: res == expandedCmd(cmd, portInfos, inIPs, subStreamIPs, outIPs, params, tags, prepend)
-//@   atcall strings.Replace all-occurrences[C15]: $arg3 < 0 && $arg1 == placeHolder.match && $arg2 == replacement
+// (a limit of n >= 1 replacements per loop round is as good as "all": the loop runs once per occurrence found by the
+// regexp, so k occurrences of the same placeholder get k rounds; only n == 0 would leave placeholders behind)
+//@   atcall strings.Replace every-occurrence-replaced[C15]: $arg3 != 0 && $arg1 == placeHolder.match && $arg2 == replacement
 //@   atcall strings.Replace known-type[C09,C15]: portInfo.portType == "o" || portInfo.portType == "os" || portInfo.portType == "i" || portInfo.portType == "p" || portInfo.portType == "t"
 //@   atcall strings.Replace case-o[C01,C13,C15]: portInfo.portType == "o" ==> outIPs[portName] != nil && replacement == replaceAll(applyMods(tempPathOf(outIPs[portName].path), placeHolder.modifiers), "../", "__parent__")
 //@   atcall strings.Replace case-os[C15,C17]: portInfo.portType == "os" ==> outIPs[portName] != nil && replacement == ite(hasMod(placeHolder.modifiers, "basename"), applyMods(outIPs[portName].path + ".fifo", placeHolder.modifiers), prependOf(applyMods(outIPs[portName].path + ".fifo", placeHolder.modifiers)))
